@@ -149,8 +149,10 @@ def cmdNick (c : Ctx) (sid : Id) (m : IrcMsg) : Res Ctx := do
 /-- `maxUserLen` -/
 def maxUserLen : Nat := 30
 
-/-- `truncateUsername`: at most `maxUserLen` characters -/
-def truncateUsername (u : String) : String := takeChars u maxUserLen
+/-- `truncateUsername`: the first word (a user name is part of the prefix of every line the session sends, so it
+cannot contain a space; only a services link can hand one over, as the trailing parameter of a short NICK), at most
+`maxUserLen` characters of it -/
+def truncateUsername (u : String) : String := takeChars (firstWord u) maxUserLen
 
 def cmdUser (c : Ctx) (sid : Id) (m : IrcMsg) : Res Ctx := do
   let u ← param m 0
